@@ -353,6 +353,8 @@ func (e *Engine) callContract(st *State, fr *Frame, callee *ssa.Function, c *Con
 		}
 	}
 	se2 := &SpecEnv{e: e, st: st, old: pre, fr: cfr, vars: post, env: env, pkg: c.Pkg}
+	callNext := pre.next
+	se2.freshBase = &callNext // the callee proved `fresh` relative to ITS entry state
 	e.bindLets(c, se2)
 	for _, en := range c.Ensures {
 		if strings.Contains(en.Src, "sortperm") {
@@ -430,7 +432,10 @@ func (e *Engine) havocAssigns(st *State, pre *State, c *Contract, se *SpecEnv, v
 			if err != nil {
 				panic(unsupported("assigns clause %q: %v", a, err))
 			}
-			pv := e.evalSpec(ex, se)
+			// which object: decided in the callee's PRE state (earlier clauses of this list have already havocked st)
+			sse := *se
+			sse.st = pre
+			pv := e.evalSpec(ex, &sse)
 			loc := e.locOf(pv)
 			nv := e.freshVal("obj_hv", loc.T)
 			st.Assume(e.wellFormed(nv, st.next))
@@ -445,6 +450,14 @@ func (e *Engine) havocAssigns(st *State, pre *State, c *Contract, se *SpecEnv, v
 			}
 		case a == "heap":
 			e.havocAllHeaps(st)
+		case strings.HasPrefix(a, "objects("):
+			pfx, _ := objectsPrefix(c.Pkg, a)
+			st.objHavoc = append(st.objHavoc[:len(st.objHavoc):len(st.objHavoc)], pfx)
+			for _, k := range sortedKeys(st.objHeap) {
+				if strings.HasPrefix(k, pfx) {
+					st.objHeap[k] = e.ctx.Fresh(k+"_call", st.objHeap[k].Sort)
+				}
+			}
 		case strings.HasPrefix(a, "map("):
 			ex, err := ParseSpecExpr(strings.TrimSuffix(strings.TrimPrefix(a, "map("), ")"))
 			if err != nil {
